@@ -187,5 +187,7 @@ func VerifC02Send(events []data_model.VerifC02Event, key data_model.Key, pct boo
 func VerifC02MakeBareAgent(componentTag int32) *Agent {
 	a := verifC02MakeAgent(DefaultConfig(), VerifC02Now, rand.New(1))
 	a.componentTag = componentTag
+	// as MakeAgent does; with 0 the aggregator would discard every historic bucket older than its recent window
+	a.historicWindow.Store(uint32(a.config.HistoricWindow))
 	return a
 }
